@@ -301,8 +301,8 @@ pub fn judge(ctx: &mut Ctx, r: &PortableRegistry, base: &SDesc, rules: &[Rule], 
     }
     // the rules reach the settings through one `insert` each, ONE `extend` call, or
     // `insert_if_not_exists` (chosen from the rule set, so that a replay repeats it)
-    with.register_via = (hash_of(&rules.iter().map(|r| r.from.clone()).collect::<Vec<_>>()) % 3) as u8;
-    ctx.count(&format!("registered_via[{}]", ["insert", "extend", "insert_if_not_exists"][with.register_via as usize]), 1);
+    with.register_via = (hash_of(&rules.iter().map(|r| r.from.clone()).collect::<Vec<_>>()) % 5) as u8;
+    ctx.count(&format!("registered_via[{}]", ["insert", "extend", "insert_if_not_exists", "insert+extend", "insert+empty-extend"][with.register_via as usize]), 1);
     let (g0, _) = generate_model(r, base);
     let (g1, ev1) = generate_model(r, &with);
     tally(&ev1, &mut ctx.res.counters);
@@ -311,7 +311,7 @@ pub fn judge(ctx: &mut Ctx, r: &PortableRegistry, base: &SDesc, rules: &[Rule], 
         (Ok(_), Err(e)) if e.starts_with("settings-refused:") => {
             ctx.violation(
                 "C07:valid-rule-refused",
-                format!("the rule set {:?} is valid (registered via {}) but the settings API refused it: {e}", rules.iter().map(|r| format!("{} => {}", r.from, r.to)).collect::<Vec<_>>(), ["insert", "extend", "insert_if_not_exists"][with.register_via as usize]),
+                format!("the rule set {:?} is valid (registered via {}) but the settings API refused it: {e}", rules.iter().map(|r| format!("{} => {}", r.from, r.to)).collect::<Vec<_>>(), ["insert", "extend", "insert_if_not_exists", "insert+extend", "insert+empty-extend"][with.register_via as usize]),
                 replay(),
             );
             return false;
